@@ -4,6 +4,7 @@ use crate::prng::Rng;
 use crate::rt::{Cfg, Policy};
 use serde_json::{json, Value};
 
+pub mod archive;
 pub mod index_threads;
 pub mod locks;
 pub mod loose;
